@@ -587,8 +587,19 @@ func workerMain() {
 		}
 	}
 	names := genNames(tp.httpLen)
+	budget := 150 * time.Second
+	if tier == "thorough" {
+		budget = 13 * time.Minute
+	}
+	deadline := time.Now().Add(budget)
 	for i, n := range names {
 		if i%nshards != shard {
+			continue
+		}
+		if time.Now().After(deadline) {
+			// never a failure: report what was not reached
+			res.Incomplete = true
+			res.count("http_names_not_reached_deadline", 1)
 			continue
 		}
 		if skipNames[n] {
